@@ -73,3 +73,56 @@ Definition wf_frec (r : str * list str) : bool :=
 (** what a FASTA reader must return: the label without surrounding blanks, the residues without white space *)
 Definition gen_records (recs : list (str * list str)) : list rec :=
   map (fun r => (strip (fst r), remove_ws (concat (snd r)))) recs.
+
+(* ------------------------------------------------------------------ GenBank flat files *)
+
+(** a record of a GenBank flat file: LOCUS name and length field, one-line fields, the lines of the ORIGIN block
+    (ANY numbering and grouping: blanks, digits and lower-case residues) *)
+Record gbx := { x_name : str; x_len : nat; x_extra : list str; x_olines : list str }.
+
+Definition gbx_lines (r : gbx) : list str :=
+  gb_locus_of (x_name r) (x_len r) :: x_extra r ++ s_origin :: x_olines r ++ [s_double_slash].
+Definition gbx_write (recs : list gbx) : str := join_lines (flat_map gbx_lines recs).
+
+Definition is_lower_letter (c : Z) : bool := (97 <=? c) && (c <=? 122).
+Definition is_digit (c : Z) : bool := (48 <=? c) && (c <=? 57).
+Definition residues (l : str) : str := filter is_lower_letter l.
+
+(** a LOCUS name: one token of plain characters *)
+Definition gb_token (n : str) : bool := nonempty n && forallb (fun c => plain c && negb (is_space c)) n.
+
+Definition safe_label (w : str) : bool :=
+  negb (str_eqb w s_locus || str_eqb w s_origin || str_eqb w s_double_slash || str_eqb w [63]
+        || str_eqb w s_source || str_eqb w s_reference || str_eqb w s_features)
+  && negb (str_eqb (ascii_lower w) s_locus_lc || str_eqb (ascii_lower w) s_sequence_lc).
+
+(** a one-line field between LOCUS and ORIGIN: starts in column 1, no trailing blank, its label is none of the
+    words with a dedicated handler, and it does not begin with "ORIGIN" or "//" *)
+Definition ok_gb_extra (l : str) : bool :=
+  forallb plain l
+  && match l with c :: _ => negb (is_space c) | [] => false end
+  && match rev l with c :: _ => negb (is_space c) | [] => false end
+  && negb (startswith l s_origin) && negb (startswith l s_double_slash)
+  && match split_ws l with w :: _ => safe_label w | [] => false end.
+
+(** a line of the ORIGIN block: starts with a blank, consists of blanks, digits and lower-case residues, ends
+    with a residue *)
+Definition ok_oline (l : str) : bool :=
+  match l with c :: _ => c =? SP | [] => false end
+  && forallb (fun c => (c =? SP) || is_digit c || is_lower_letter c) l
+  && match rev l with c :: _ => is_lower_letter c | [] => false end.
+
+Definition ok_gbx (r : gbx) : bool :=
+  gb_token (x_name r) && forallb ok_gb_extra (x_extra r)
+  && match x_olines r with [] => false | _ => true end && forallb ok_oline (x_olines r).
+
+Definition gbx_seq (r : gbx) : str := concat (map residues (x_olines r)).
+Definition gbx_expected (recs : list gbx) : list (option str * option str) :=
+  map (fun r => (Some (x_name r), Some (gbx_seq r))) recs.
+Definition gbx_expected_upper (recs : list gbx) : list (option str * option str) :=
+  map (fun r => (Some (x_name r), Some (ascii_upper (gbx_seq r)))) recs.
+
+(** the standard layout (numbered lines of 6 groups of 10) as an instance *)
+Definition gbx_of (r : gb_rec) : gbx :=
+  {| x_name := gb_name r; x_len := length (gb_seq r); x_extra := gb_extra r;
+     x_olines := gb_origin_lines (S (length (gb_seq r))) 1 (gb_seq r) |}.
